@@ -9,7 +9,9 @@ seeds = sys.argv[2:] or sorted(d for d in os.listdir(os.path.join(ROOT, "seeded"
 path = os.path.join(ROOT, "seeded", "matrix.json")
 matrix = json.load(open(path)) if os.path.exists(path) else {}
 for s in seeds:
-    patch = os.path.join(ROOT, "seeded", s, "patch.diff")
+    patch = os.path.join(ROOT, "seeded", s, "patch.rebased.diff")
+    if not os.path.exists(patch):
+        patch = os.path.join(ROOT, "seeded", s, "patch.diff")
     o = subprocess.run([sys.executable, os.path.join(ROOT, "tools", "seedtest.py"), patch] + props, capture_output=True, text=True)
     line = [l for l in o.stdout.splitlines() if l.startswith("RESULT ")]
     if not line:
